@@ -87,8 +87,9 @@ second wave argument is the wave left by the previous configuration (only the la
 def configLoop (step : W → S → W) (detect : W → M) (p : Pot S) (first : Int) (w0 : W) :
     W → Nat → List (List S) → W × List (Write M)
   | w, _, [] => (w, [])
-  | _, c, cfg :: rest =>
-    let r := runConfig step detect p first c w0 cfg
+  | w, c, cfg :: rest =>
+    -- `if i > 0: waves = incident_waves.copy()` (generated test `mReset`); configuration 0 uses the copy made before the loop
+    let r := runConfig step detect p first c (if mReset (c : Int) then w0 else w) cfg
     let r' := configLoop step detect p first w0 r.1 (c + 1) rest
     (r'.1, r.2 ++ r'.2)
 
